@@ -68,6 +68,13 @@ def build_harness(name, race=False, tags='verif'):
         if os.path.exists(out):
             os.remove(out)
         cmd = ['go', 'build', '-tags', tags, '-overlay', ov, '-o', out]
+        if os.path.realpath(REPO) != '/repo':
+            # scratch worktree of netpoll (VERIF_REPO): same harness module, `replace` pointed at it
+            mod = open(os.path.join(GO, 'go.mod')).read().replace('=> /repo', '=> ' + os.path.realpath(REPO))
+            open(os.path.join(WORK, 'harness.mod'), 'w').write(mod)
+            if os.path.exists(os.path.join(GO, 'go.sum')):
+                open(os.path.join(WORK, 'harness.sum'), 'w').write(open(os.path.join(GO, 'go.sum')).read())
+            cmd.append('-modfile=' + os.path.join(WORK, 'harness.mod'))
         if race:
             cmd.append('-race')
             e = go_env(); e['CGO_ENABLED'] = '1'
